@@ -4,7 +4,7 @@
 # Development aid (which code do the checks never execute?); not part of any registered command.
 cd "$(dirname "$0")/.." && . ./env.sh
 out=work/cover; mkdir -p $out/bin
-pk=github.com/google/badwolf/...
+pk=all   # a pattern naming only the replaced module instruments nothing with this toolchain
 for id in "$@"; do
   lc=$(echo $id | tr A-Z a-z)
   d=$out/data-$lc; rm -rf $d; mkdir -p $d
@@ -14,5 +14,6 @@ for id in "$@"; do
 done
 dirs=$(ls -d $out/data-* | paste -sd,)
 go tool covdata textfmt -i=$dirs -o $out/all.txt
-go tool cover -func=$out/all.txt | grep -v "_test.go\|/tools/\|/examples/\|100.0%" | sort -k3 -n > $out/func.txt
+grep -e "^mode:" -e "^github.com/google/badwolf/" $out/all.txt > $out/bw.txt
+go tool cover -func=$out/bw.txt | grep -v "_test.go\|/tools/\|/examples/\|100.0%" | sort -k3 -n > $out/func.txt
 wc -l $out/func.txt
